@@ -1,6 +1,74 @@
-(* C09 — stub: model not yet built (the property is listed under not_applicable until it is). *)
+(* C09 — wire model.  A case is a concurrent program over the access summaries that
+   gen/ extracts from the repository (Gen/AccessFacts.v) plus one schedule:
+
+     input  = ( (thread ...) (tid ...) )      thread = ( (instance #unit-name) ... )
+     output = ( race lock-deadlock panic unknown-units )
+
+   [model] runs the interleaving semantics of Sem.v on the program along the schedule
+   and reports whether some visited state is a race state on a location covered by the
+   disciplines, or a state in which nobody can move while a thread is blocked on a lock
+   or a once.  The real zap reports what the race detector, the watchdog and recover()
+   observed while running the corresponding API calls.  [spec] accepts exactly the
+   all-zero observation.  No proofs in this file. *)
 From Coq Require Import List ZArith Bool.
+From Coq.Strings Require Import Byte.
 Import ListNotations.
-From Zap Require Import Base.Wire.
-Definition model (i : sx) : sx := SL [].
-Definition spec (i o : sx) : bool := false.
+From Zap Require Import Base.Wire C09.Sem C09.Facts Gen.AccessFacts.
+
+Definition U : list (code nat) := map snd units.
+Definition rk : nat -> nat := lookup ranks.
+
+Definition table := list (bytes * code nat).
+
+Fixpoint find_unit (n : bytes) (us : table) : option (code nat) :=
+  match us with
+  | [] => None
+  | (s, c) :: r => if bytes_eqb s n then Some c else find_unit n r
+  end.
+
+(* decode one thread: its calls, and how many unit names were not found *)
+Fixpoint dec_calls (us : table) (l : list sx) : list call * nat :=
+  match l with
+  | [] => ([], 0)
+  | x :: r =>
+      let (cs, u) := dec_calls us r in
+      match find_unit (sx_b (sx_nth x 1)) us with
+      | Some c => ((sx_n (sx_nth x 0), c) :: cs, u)
+      | None => (cs, S u)
+      end
+  end.
+
+Fixpoint dec_threads (us : table) (l : list sx) : list (list call) * nat :=
+  match l with
+  | [] => ([], 0)
+  | x :: r =>
+      let (ts, u) := dec_threads us r in
+      let (cs, v) := dec_calls us (sx_l x) in
+      (cs :: ts, v + u)
+  end.
+
+Definition dec_sched (x : sx) : list nat := map sx_n (sx_l x).
+
+(* locations covered by the proved disciplines (class (d) fields are not) *)
+Definition covered (ex : list nat) (r : oref) : bool := negb (memb (snd r) ex).
+
+Fixpoint scan (ex : list nat) (s : state oref) (sched : list nat) (race dead : bool) : bool * bool :=
+  let race' := race || raceb eqb2 (covered ex) s in
+  let dead' := dead || lock_deadb s in
+  match sched with
+  | [] => (race', dead')
+  | t :: r => scan ex (step eqb2 s t) r race' dead'
+  end.
+
+Definition model_with (us : table) (ex : list nat) (i : sx) : sx :=
+  let (ts, unk) := dec_threads us (sx_l (sx_nth i 0)) in
+  let prog := map thread_of ts in
+  let (race, dead) := scan ex (init prog) (dec_sched (sx_nth i 1)) false false in
+  SL [of_bool race; of_bool dead; SZ 0; of_nat unk].
+
+Definition model (i : sx) : sx := model_with units exempt i.
+
+Definition spec (i o : sx) : bool := sx_eqb o (SL [SZ 0; SZ 0; SZ 0; SZ 0]).
+
+(* every unit name of the case is known to the table *)
+Definition wf (i : sx) : bool := Nat.eqb (snd (dec_threads units (sx_l (sx_nth i 0)))) 0.
